@@ -16,7 +16,7 @@ ASSUMPTIONS = [
     "linkage-class deficiencies are compared as multisets (class order is unspecified)",
 ]
 RULE = {
-    "quick": "every network with <=2 reactions over {A,B,C}, coefficients {0,1,2}, one per species-permutation class, + every digraph of unimolecular reactions on 4 species with <=5 arcs (1 585; thorough: all 4 095) + textbook networks; each analysed from "
+    "quick": "every network with <=2 reactions over {A,B,C}, coefficients {0,1,2}, one per species-permutation class, + every digraph of unimolecular reactions on 4 species with <=5 arcs (1 585; thorough: all 4 095) + trees on five single-species complexes with their reactions listed in every order (2 304) + textbook networks; each analysed from "
     "the hypergraph from its exported bipartite graph (string and integer ids, and inserted in the opposite order) and with an extra registered species that occurs in no reaction; the analyser object asked a second time and through the convenience wrapper; non-trivial = at least 2 linkage classes or deficiency > 0 or not weakly reversible",
     "thorough": "all 266 084 labelled 2-reaction networks + all 3-reaction networks with coefficients {0,1} + 4 species x 2 reactions x {0,1} + textbook",
 }
@@ -42,10 +42,26 @@ def unimolecular_digraphs(tier):
             yield "; ".join(f"{ec.SPECIES[i]}>>{ec.SPECIES[j]}" for i, j in sub)
 
 
+def tree_assembly_orders(tier):
+    """complex graphs that are trees on five single-species complexes (3 shapes x all 16 orientations x 2 labellings; thorough:
+    6 labellings), their four reactions listed in every one of the 24 orders: one linkage class however it is assembled"""
+    import itertools
+
+    shapes = [[(0, 1), (1, 2), (2, 3), (3, 4)], [(0, 1), (0, 2), (0, 3), (0, 4)], [(0, 1), (1, 2), (2, 3), (2, 4)]]
+    labs = [(0, 1, 2, 3, 4), (4, 3, 2, 1, 0)] + ([(2, 0, 4, 1, 3), (1, 3, 0, 4, 2), (3, 4, 1, 0, 2), (0, 2, 4, 3, 1)] if tier != "quick" else [])
+    for sh in shapes:
+        for orient in itertools.product((0, 1), repeat=4):
+            for lab in labs:
+                arcs = [((lab[u], lab[v]) if o == 0 else (lab[v], lab[u])) for (u, v), o in zip(sh, orient)]
+                for order in itertools.permutations(range(4)):
+                    yield "; ".join(f"{ec.SPECIES[arcs[k][0]]}>>{ec.SPECIES[arcs[k][1]]}" for k in order)
+
+
 def gen(tier, seed):
     for net in ec.networks(3, 2, 2, quotient=(tier == "quick")):
         yield ec.net_str(net)
     yield from unimolecular_digraphs(tier)
+    yield from tree_assembly_orders(tier)
     for s in TEXTBOOK + EXTRA:
         yield s
     if tier != "quick":
